@@ -141,6 +141,30 @@ def noRelock : List Ev → List Tgt → Bool → Bool
   | .rel t :: r, held, d => noRelock r (held.erase t) d
   | .distinctOrReturn :: r, held, _ => noRelock r held true
 
+/-- the actions one call performs, in order, under an assignment `ρ` of the
+    written targets to mutexes; at `if Arc::ptr_eq(..) { return }` the call
+    ends when `self` and `other` are the same list -/
+def callActs (ρ : Tgt → Nat) : List Ev → List Act
+  | [] => []
+  | .acq k f t :: r => .acq k f (ρ t) :: callActs ρ r
+  | .rel t :: r => .rel (ρ t) :: callActs ρ r
+  | .distinctOrReturn :: r => if ρ .self_ = ρ .other then [] else callActs ρ r
+
+/-- a sequence of actions never acquires a mutex it has acquired and not yet released -/
+def heldOk : List Act → List Nat → Bool
+  | [], _ => true
+  | .acq _ _ m :: r, held => !held.contains m && heldOk r (m :: held)
+  | .rel m :: r, held => heldOk r (held.erase m)
+
+/-- admissible assignments: a list created inside the call is no other list;
+    `lo`/`hi` are `self`/`other` in one of the two orders -/
+structure RhoOk (ρ : Tgt → Nat) : Prop where
+  fresh_self : ρ .fresh ≠ ρ .self_
+  fresh_other : ρ .fresh ≠ ρ .other
+  fresh_lo : ρ .fresh ≠ ρ .lo
+  fresh_hi : ρ .fresh ≠ ρ .hi
+  lohi : (ρ .lo = ρ .self_ ∧ ρ .hi = ρ .other) ∨ (ρ .lo = ρ .other ∧ ρ .hi = ρ .self_)
+
 /-! ### lock order: two lists held at once are taken in address order -/
 
 /-- holding `h`, may the call wait for `t` without risking a wait cycle with
